@@ -124,6 +124,7 @@ from ..number import (
     MPBFloatContext,
     MPFixedContext,
     MPSFloatContext,
+    OverflowMode,
     RealFloat,
     RoundingMode,
 )
@@ -489,6 +490,13 @@ class _UnfoldOverflowInstance(BlockRewriter):
             return Declined(
                 'stochastic rounding would have to draw its bits under the '
                 'same format'
+            )
+        if isinstance(ctx, MPBFixedContext) and ctx.overflow is OverflowMode.WRAP:
+            # the probe below compares two magnitudes, and a wrapped result
+            # can agree at both by coincidence
+            return Declined(
+                'a wrapping overflow gives a different answer at every '
+                'magnitude, so no constant states it'
             )
 
         unbounded = _unbounded(ctx)
